@@ -11,8 +11,11 @@ import (
 	"strings"
 	"sync"
 	"testing"
+	"testing/synctest"
+	"time"
 
 	"github.com/creachadair/jrpc2"
+	"github.com/creachadair/jrpc2/channel"
 	"github.com/creachadair/jrpc2/handler"
 	"github.com/creachadair/jrpc2/server"
 )
@@ -359,6 +362,35 @@ func TestC17(t *testing.T) {
 			res.Violatef("a method added to the assigner is not dispatched", "Alpha", "%v", err)
 		}
 		loc.Close()
+	}
+
+	// ---- the start time rpc.serverInfo reports: the StartTime option if one is given, otherwise the
+	// moment Start was called - not the moment the server was constructed. Run on synctest's
+	// clock, so "the moment" is exact.
+	for i, opts := range []*jrpc2.ServerOptions{nil, {}, {Concurrency: 2}, {StartTime: time.Date(2001, 2, 3, 4, 5, 6, 0, time.UTC)}} {
+		synctest.Test(t, func(t *testing.T) {
+			srv := jrpc2.NewServer(handler.Map{"Beta": handler.New(func(context.Context) (int, error) { return 1, nil })}, opts)
+			time.Sleep(90 * time.Minute) // prepared ahead of the connection it will serve
+			cch, sch := channel.Direct()
+			started := time.Now()
+			srv.Start(sch)
+			cli := jrpc2.NewClient(cch, nil)
+			var si jrpc2.ServerInfo
+			err := cli.CallResult(context.Background(), "rpc.serverInfo", nil, &si)
+			direct := srv.ServerInfo()
+			cli.Close()
+			srv.Wait()
+			want := started
+			if opts != nil && !opts.StartTime.IsZero() {
+				want = opts.StartTime
+			}
+			in := fmt.Sprintf("NewServer (options #%d), 90 minutes later Start, then rpc.serverInfo", i)
+			res.Case(fmt.Sprintf("serverinfo-starttime/%d", i), true, in)
+			if err != nil || !si.StartTime.Equal(want) || !direct.StartTime.Equal(want) {
+				res.Violatef("rpc.serverInfo reports a start time that is neither the StartTime option nor the time of Start", in,
+					"want %v, rpc.serverInfo %v, ServerInfo() %v (err %v)", want.UTC(), si.StartTime.UTC(), direct.StartTime.UTC(), err)
+			}
+		})
 	}
 
 	// ---- method names as other encoders write them: JSON escapes that Go's own syntax does not have
